@@ -1349,13 +1349,17 @@ class LangServer:
         filepath = path_from_uri(uri)
         # Skip update and remove objects if file is deleted
         if did_close and (not os.path.isfile(filepath)):
-            # Remove old objects from tree
-            file_obj = self.workspace.get(filepath)
+            # Remove the file and its old objects from the workspace
+            file_obj = self.workspace.pop(filepath, None)
             if file_obj is not None:
                 ast_old = file_obj.ast
                 if ast_old is not None:
                     for key in ast_old.global_dict:
                         self.obj_tree.pop(key, None)
+                # Links of other files into the removed objects are now stale
+                self.link_version = (self.link_version + 1) % 1000
+                for _, tmp_file in self.workspace.items():
+                    tmp_file.ast.resolve_links(self.obj_tree, self.link_version)
             return
         did_change, err_str = self.update_workspace_file(
             filepath, read_file=True, allow_empty=did_open
